@@ -666,3 +666,44 @@ Lemma typed_number v : is_number v = true -> typed v = VNum v.
 Proof. unfold typed. intros ->. reflexivity. Qed.
 Lemma typed_string v : is_number v = false -> typed v = VStr (trim v).
 Proof. unfold typed. intros ->. reflexivity. Qed.
+
+(* ---------- damaged files (C19): edits that touch only the layout are invisible ---------- *)
+Theorem layout_edit_invisible pls pls' :
+  pls <> [] -> pls' <> [] -> forallb wf_pline pls = true -> forallb wf_pline pls' = true ->
+  forallb not_removed (render pls) = true -> forallb not_removed (render pls') = true ->
+  contents pls = contents pls' -> build_blocks (render pls) = build_blocks (render pls').
+Proof.
+  intros N1 N2 W1 W2 R1 R2 Hc. unfold build_blocks, sanitize, clean_lines.
+  rewrite (content_lines_render pls N1 W1 R1), (content_lines_render pls' N2 W2 R2), Hc. reflexivity.
+Qed.
+
+(* deleting or duplicating a blank / comment line, or re-indenting a line, are such edits *)
+Lemma contents_app a b : contents (a ++ b) = contents a ++ contents b.
+Proof. unfold contents. apply flat_map_app. Qed.
+
+Corollary delete_noise_line_invisible a p b :
+  (match p with PContent _ _ _ => False | _ => True end) ->
+  a ++ b <> [] -> forallb wf_pline (a ++ p :: b) = true ->
+  forallb not_removed (render (a ++ p :: b)) = true -> forallb not_removed (render (a ++ b)) = true ->
+  build_blocks (render (a ++ p :: b)) = build_blocks (render (a ++ b)).
+Proof.
+  intros Hp Hne Hwf R1 R2. apply layout_edit_invisible; try assumption.
+  - destruct a; discriminate.
+  - rewrite forallb_app in *. cbn [forallb] in Hwf. apply andb_true_iff in Hwf. destruct Hwf as [Ha Hb].
+    apply andb_true_iff in Hb. destruct Hb as [_ Hb]. rewrite Ha, Hb. reflexivity.
+  - rewrite !contents_app. change (p :: b) with ([p] ++ b). rewrite contents_app.
+    destruct p; [contradiction | reflexivity | reflexivity].
+Qed.
+
+Corollary duplicate_noise_line_invisible a p b :
+  (match p with PContent _ _ _ => False | _ => True end) ->
+  forallb wf_pline (a ++ p :: b) = true ->
+  forallb not_removed (render (a ++ p :: b)) = true -> forallb not_removed (render (a ++ p :: p :: b)) = true ->
+  build_blocks (render (a ++ p :: p :: b)) = build_blocks (render (a ++ p :: b)).
+Proof.
+  intros Hp Hwf R1 R2. apply layout_edit_invisible; try assumption; try (destruct a; discriminate).
+  - rewrite forallb_app in *. cbn [forallb] in *. apply andb_true_iff in Hwf. destruct Hwf as [Ha Hb].
+    apply andb_true_iff in Hb. destruct Hb as [Hp' Hb]. rewrite Ha, Hp', Hb. reflexivity.
+  - rewrite !contents_app. change (p :: p :: b) with ([p] ++ [p] ++ b). change (p :: b) with ([p] ++ b). rewrite !contents_app.
+    destruct p; [contradiction | reflexivity | reflexivity].
+Qed.
